@@ -29,7 +29,7 @@ from __future__ import annotations
 import ast
 
 from .. import sym
-from ..model import AnalysisError, Program, attr_chain, bind_args, inline_single_defs, norm_stmt, walk_no_nested
+from ..model import AnalysisError, Program, as_increment, attr_chain, bind_args, inline_single_defs, norm_stmt, walk_no_nested
 from ..paths import Engine, Hooks, Opaque, Seq, State, Const, describe_trail
 from ..report import Result
 from ..selftest import Variant
@@ -428,6 +428,50 @@ def _check_counts(prog: Program, res: Result):
                     res.violation("R03.3", f"count-upper|{fname}|{(hi - one).key()}", prog.loc(fi, n), fi.qualname,
                                   f"the count range {ast.unparse(n)} ends at {(hi - one).key()} + 1 instead of floor(L / b_min + 1) for its own side "
                                   f"L = {L.key() if L is not None else '?'}: spacings below b_min (or counts beyond the land) become possible")
+        # a count that is advanced by a while loop instead of drawn from a range: whatever enters the domain must have been
+        # generated with a spacing the path has already found to be >= b_min (a test that comes after the append is too late)
+        for lp in [x for x in ast.walk(fi.node) if isinstance(x, ast.While)]:
+            gens = [c for c in ast.walk(lp) if isinstance(c, ast.Call) and attr_chain(c.func) in GENERATORS]
+            if not gens:
+                continue
+            n_ranges += 1
+            stepped = {x.target.id for x in ast.walk(lp) if isinstance(x, ast.AugAssign) and isinstance(x.target, ast.Name)} | \
+                      {x.targets[0].id for x in ast.walk(lp) if isinstance(x, ast.Assign) and len(x.targets) == 1 and isinstance(x.targets[0], ast.Name) and as_increment(x) is not None}
+
+            class HW(Hooks):
+                def on_call(self, node, fname, args, kwargs, st_, eng_):
+                    if fname in GENERATORS:
+                        sp = [a for a in args[2:4] if isinstance(a, Rat)]
+                        st_.env["__spacings__"] = Seq(sp, "list")
+                        return Rat.atom(f"FIELD#{node.lineno}")
+                    if fname and fname.endswith(".append") and len(args) == 1 and isinstance(args[0], Rat) and args[0].key().startswith("FIELD#"):
+                        sp = st_.env.get("__spacings__")
+                        signs = [(v, st_.sign_of(v - bmin)) for v in (sp.items if isinstance(sp, Seq) else [])]
+                        st_.emit("APPEND", signs, node)
+                        return Const(None)
+                    if fname == "transpose_coordinates" and args:
+                        return args[0]
+                    return None
+
+            e2 = Engine(prog, fi, HW(), loop_bound=1)
+            s2 = st.fork()
+            for nm in stepped:
+                s2.env[nm] = Rat.atom(nm)
+            n_app = 0
+            for f_ in e2.run_block(lp.body, [s2]):
+                for ev in f_.events:
+                    if ev.kind != "APPEND":
+                        continue
+                    n_app += 1
+                    varying = [(v, sg) for v, sg in ev.data if any(a in stepped or any(a.startswith(x_ + ".") for x_ in stepped) for a in v.all_atoms())]
+                    bad = [(v, sg) for v, sg in varying if not (sg and sg <= frozenset("+0"))]
+                    res.ob("R03.3", f"{fname}: the field appended by the while loop has spacing(s) {[v.key()[:30] for v, _ in varying]} already known to be >= b_min", not bad, prog.loc(fi, ev.node))
+                    for v, sg in bad[:2]:
+                        res.violation("R03.3", f"while-spacing|{fname}|{v.key()[:40]}", prog.loc(fi, ev.node), fi.qualname,
+                                      f"a field generated with spacing {v.key()[:60]} enters the domain before the loop has established that this spacing is >= b_min "
+                                      "(the exit test comes after the append): the last candidate of the list can be denser than b_min allows")
+            if n_app == 0:
+                raise AnalysisError(f"{fi.qualname}: a while loop generates fields but no path appends one")
         res.count("count_ranges", n_ranges)
     res.floor("count_ranges", 5)
 
@@ -953,6 +997,12 @@ def _check_shapes(prog: Program, res: Result):
 
 
 VARIANTS = [
+    Variant("rectangular: columns added by a while loop that tests the spacing after the field was appended (seeded C03_g)", "break",
+            [(DOM, "    for num_borehole in range(n_min, n_max + 1):\n        # Check to see if we bracket\n        b = length_1 / (num_borehole - 1)\n", "    num_borehole = n_min\n    while True:\n        b = length_1 / (num_borehole - 1)\n"),
+             (DOM, "        num_borehole += 1  # noqa: PLW2901\n\n    return rectangle_domain, field_descriptors", "        if b <= b_min:\n            break\n        num_borehole += 1\n\n    return rectangle_domain, field_descriptors")], "R03.3"),
+    Variant("rectangular: columns added by a while loop that tests the spacing before the field is generated", "benign",
+            [(DOM, "    for num_borehole in range(n_min, n_max + 1):\n        # Check to see if we bracket\n        b = length_1 / (num_borehole - 1)\n", "    num_borehole = n_min\n    while True:\n        b = length_1 / (num_borehole - 1)\n        if b < b_min:\n            break\n"),
+             (DOM, "        num_borehole += 1  # noqa: PLW2901\n\n    return rectangle_domain, field_descriptors", "        num_borehole += 1\n\n    return rectangle_domain, field_descriptors")]),
     Variant("nested bi-rectangle domain memoised under a key without b_min (seeded C03_f)", "break",
             [(DOM, "def bi_rectangle_nested(", "_nested_domains: dict = {}\n\n\ndef bi_rectangle_nested("),
              (DOM, "    # find the maximum number of boreholes as a float\n    n_2_max = (length_2 / b_min) + 1\n    n_2_min = (length_2 / b_max_2) + 1\n", "    key = (length_1, length_2, b_max_1, b_max_2, transpose)\n    if key in _nested_domains:\n        return _nested_domains[key]\n    # find the maximum number of boreholes as a float\n    n_2_max = (length_2 / b_min) + 1\n    n_2_min = (length_2 / b_max_2) + 1\n")], "R03.6"),
